@@ -1115,6 +1115,39 @@ Proof.
   rewrite Hq, expect_all_room by assumption. now rewrite Hw.
 Qed.
 
+(* ---------- C10 (c), the end of a handler's life takes nothing back ----------
+   Whatever happened to the handler (removed, closed by a shutdown, its filter answered keep=false: the
+   queue may be closed), a consumer that goes on receiving is handed everything that waits in the queue:
+   after length (h_buf h) receptions the queue is empty and what the consumer has received is exactly
+   what the filter matched among the messages that found room, in arrival order. *)
+Lemma drain_exec n : forall s hid h, nth_error (st_hs s) hid = Some h -> List.length (h_buf h) = n ->
+  exists s' h', exec s (repeat (LRecv hid) n) = Some s' /\ nth_error (st_hs s') hid = Some h' /\
+    h_buf h' = [] /\ h_recvd h' = h_recvd h ++ h_buf h /\ h_closed h' = h_closed h.
+Proof.
+  induction n as [|n IH]; intros s hid h Hh Hlen.
+  - destruct (h_buf h) eqn:Hb; [|discriminate]. exists s, h. cbn. rewrite app_nil_r. repeat split; auto.
+  - destruct (h_buf h) as [|m rest] eqn:Hb; [discriminate|]. cbn [repeat exec step]. unfold do_recv. rewrite Hh, Hb.
+    assert (Hlt : hid < List.length (st_hs s)) by (eapply nth_error_Some_lt; eauto).
+    destruct (IH (with_hs s (set_nth hid (take_one h m rest) (st_hs s))) hid (take_one h m rest)) as (s' & h' & He & Hn & Hbuf & Hr & Hc).
+    + cbn. now apply nth_error_set_nth_eq.
+    + cbn. cbn in Hlen. lia.
+    + exists s', h'. repeat split; auto. rewrite Hr. cbn. now rewrite <- app_assoc.
+Qed.
+
+Theorem drain_delivers_selection ls s rs hid h :
+  run ls = RRun s rs -> nth_error (st_hs s) hid = Some h ->
+  exists s' rs' h', run (ls ++ repeat (LRecv hid) (List.length (h_buf h))) = RRun s' rs' /\
+    nth_error (st_hs s') hid = Some h' /\ h_buf h' = [] /\ h_closed h' = h_closed h /\
+    h_recvd h' = expect (h_filter h) [] (events h).
+Proof.
+  intros Hrun Hh. destruct (queue_is_selected_subsequence ls s rs hid h Hrun Hh) as [_ Hq].
+  unfold run in Hrun. apply run_from_exec in Hrun.
+  destruct (drain_exec (List.length (h_buf h)) s hid h Hh eq_refl) as (s' & h' & He & Hn & Hb & Hr & Hc).
+  assert (Hx : exec init (ls ++ repeat (LRecv hid) (List.length (h_buf h))) = Some s') by (rewrite exec_app, Hrun; exact He).
+  destruct (exec_run_from _ init [] 0 s' Hx) as (rs' & Hrun').
+  exists s', rs', h'. unfold run. repeat split; auto. now rewrite Hr.
+Qed.
+
 (* ---------- C10 (a)+(b): concurrent senders ---------- *)
 Lemma pop_nth_spec {A} (P : A -> Prop) i : forall (ls ls' : list (list A)) x, pop_nth i ls = Some (x, ls') ->
   nth i ls [] = x :: nth i ls' [] /\ (forall j, j <> i -> nth j ls' [] = nth j ls []) /\
